@@ -402,7 +402,7 @@ func ruleR072(c *Ctx, r *Repo) {
 		}
 		return false
 	}
-	paths, _ := enumerateFunc(info, visit)
+	paths := enumerateFollowUnexported(ip, visit) // predicates such as isCandidate(n.Type) are followed
 	const spec = "ARG0.(*ast.TypeSpec)"
 	for _, t := range []string{"*ast.InterfaceType", "*ast.IndexExpr", "*ast.IndexListExpr"} {
 		n, all := 0, true
@@ -773,6 +773,18 @@ func ruleR075(c *Ctx, r *Repo, rule string) {
 		case hasEx && !exVal:
 			nStore++
 			merged := hasStep(p, "config.mergeConfigs(") == 1 && hasStep(p, "*RECV.Packages[RECPKG].Config, ") == 1
+			// an entry that exists already is completed in place (it is a pointer held by the map): storing it
+			// back is optional; a fresh entry must be stored
+			if ex, hasExist := atomVal(p, "RECV.Packages[SUBPKG]#ok"); hasExist && ex && stores == 0 && merged {
+				inPlace := false
+				for _, call := range p.CallsTo("config.mergeConfigs") {
+					if len(call.Args) == 3 && call.Args[2] == "RECV.Packages[SUBPKG].Config" {
+						inPlace = true
+					}
+				}
+				c.Check(inPlace, rule, "Initialize|inject", r.Pos(rs.Pos()), "an existing sub-package is completed in place", "an already configured sub-package is neither completed in place nor stored back: "+p.String())
+				continue
+			}
 			c.Check(stores == 1 && merged, rule, "Initialize|inject", r.Pos(rs.Pos()), "non-excluded sub-package gets the recursive package's config merged in and is stored", fmt.Sprintf("a non-excluded sub-package is not (stores=%d) stored under its path with the recursive package's config merged into it: %s", stores, p.String()))
 			ex, hasExist := atomVal(p, "RECV.Packages[SUBPKG]#ok")
 			if hasExist && ex {
@@ -897,7 +909,8 @@ func checkRecursiveOrder(c *Ctx, r *Repo, cp *packages.Package, fd *ast.FuncDecl
 		found := false
 		ast.Inspect(g.Body, func(n ast.Node) bool {
 			if rs, ok := n.(*ast.RangeStmt); ok && reachesSub(rs.Body) {
-				if _, ok := ast.Unparen(rs.X).(*ast.Ident); ok {
+				switch ast.Unparen(rs.X).(type) {
+				case *ast.Ident, *ast.CallExpr:
 					found = true
 				}
 			}
@@ -908,16 +921,53 @@ func checkRecursiveOrder(c *Ctx, r *Repo, cp *packages.Package, fd *ast.FuncDecl
 			break
 		}
 	}
+	var sortCall *ast.CallExpr
 	ast.Inspect(fd.Body, func(n ast.Node) bool {
 		if rs, ok := n.(*ast.RangeStmt); ok && !loopPos.IsValid() && reachesSub(rs.Body) {
 			if id, ok := ast.Unparen(rs.X).(*ast.Ident); ok {
 				list = info.Uses[id]
 				loopPos = rs.Pos()
 			}
+			// for .. := range sortedCopy(list): the helper returns a sorted copy of its only argument
+			if call, ok := ast.Unparen(rs.X).(*ast.CallExpr); ok && len(call.Args) == 1 {
+				if h := funcs[calleeFunc(info, call)]; h != nil && h.Body != nil && h.Type.Params.NumFields() == 1 && len(h.Type.Params.List[0].Names) == 1 {
+					hc := newFuncCanon(info, h)
+					ast.Inspect(h.Body, func(m ast.Node) bool {
+						sc, ok := m.(*ast.CallExpr)
+						if !ok || len(sc.Args) < 1 {
+							return true
+						}
+						switch calleeName(info, sc) {
+						case "sort.Slice", "sort.SliceStable", "slices.SortFunc", "slices.SortStableFunc", "sort.Strings", "slices.Sort":
+						default:
+							return true
+						}
+						sid, ok := ast.Unparen(sc.Args[0]).(*ast.Ident)
+						if !ok {
+							return true
+						}
+						sorted := info.Uses[sid]
+						def := hc.Obj(sorted)
+						isCopy := def == "slices.Clone(ARG0)" || strings.HasPrefix(def, "builtin.append(") && strings.HasSuffix(def, ", ARG0...)")
+						returned := false
+						ast.Inspect(h.Body, func(k ast.Node) bool {
+							if rt, ok := k.(*ast.ReturnStmt); ok && len(rt.Results) == 1 && isObj(info, rt.Results[0], sorted) {
+								returned = true
+							}
+							return true
+						})
+						if (isCopy || sorted == info.Defs[h.Type.Params.List[0].Names[0]]) && returned {
+							sortCall, list = sc, sorted
+							loopPos = rs.Pos()
+						}
+						return true
+					})
+				}
+			}
 		}
 		return true
 	})
-	var sortCall *ast.CallExpr
+	preSorted := sortCall != nil
 	isSort := func(call *ast.CallExpr) bool {
 		switch calleeName(info, call) {
 		case "sort.Slice", "sort.SliceStable", "slices.SortFunc", "slices.SortStableFunc", "sort.Strings", "slices.Sort":
@@ -925,7 +975,7 @@ func checkRecursiveOrder(c *Ctx, r *Repo, cp *packages.Package, fd *ast.FuncDecl
 		}
 		return false
 	}
-	if list != nil {
+	if list != nil && !preSorted {
 		ast.Inspect(fd.Body, func(n ast.Node) bool {
 			call, ok := n.(*ast.CallExpr)
 			if !ok || len(call.Args) < 1 {
@@ -992,6 +1042,9 @@ func checkRecursiveOrder(c *Ctx, r *Repo, cp *packages.Package, fd *ast.FuncDecl
 			return true
 		})
 	}
+	if preSorted {
+		sortPos = loopPos // the sort runs in the range expression itself
+	}
 	if sortCall == nil || !loopPos.IsValid() || sortPos > loopPos {
 		c.Fail(rule, key, r.Pos(fd.Pos()), "the recursive packages are expanded in map-iteration order: no sort of the list precedes the expansion loop, so a sub-package below nested recursive packages inherits from whichever ancestor comes first")
 		return
@@ -1003,6 +1056,14 @@ func checkRecursiveOrder(c *Ctx, r *Repo, cp *packages.Package, fd *ast.FuncDecl
 	}
 	byIndex := n == "sort.Slice" || n == "sort.SliceStable"
 	fl, ok := sortCall.Args[1].(*ast.FuncLit)
+	if !ok {
+		// a named comparator function of the package
+		if id, isID := ast.Unparen(sortCall.Args[1]).(*ast.Ident); isID {
+			if cf, isFn := info.Uses[id].(*types.Func); isFn && funcs[cf] != nil && funcs[cf].Recv == nil {
+				fl, ok = &ast.FuncLit{Type: funcs[cf].Type, Body: funcs[cf].Body}, true
+			}
+		}
+	}
 	if !ok || fl.Type.Params.NumFields() != 2 {
 		c.Fail(rule, key, r.Pos(sortPos), "cannot analyse the comparator of the recursive-package sort")
 		return
@@ -1112,7 +1173,7 @@ func subPackagesDecl(cp *packages.Package) *ast.FuncDecl {
 // lenOrderAtom evaluates a comparison of the two length terms under the ordering o = sign(len(A) - len(B)).
 func lenOrderAtom(a, li, lj string, o int) (val, known bool) {
 	for _, op := range []string{" <= ", " >= ", " == ", " < ", " > "} {
-		i := strings.Index(a, op)
+		i := strings.LastIndex(a, op)
 		if i < 0 {
 			continue
 		}
@@ -1123,6 +1184,13 @@ func lenOrderAtom(a, li, lj string, o int) (val, known bool) {
 			s = o
 		case x == lj && y == li:
 			s = -o
+		case y == "0":
+			// a three-way result compared with zero: cmp.Compare(len(b), len(a)) != 0 and the like
+			sg, total, ok := threeWaySign(x, li, lj, o)
+			if !ok || total {
+				return false, false
+			}
+			s = sg
 		default:
 			return false, false
 		}
@@ -1212,4 +1280,20 @@ func threeWaySign(e, li, lj string, o int) (sign int, total, known bool) {
 		return pair(e[:i], e[i+3:])
 	}
 	return 0, false, false
+}
+
+// enumerateFollowUnexported: fd's paths with the unexported functions of its package followed, in statement,
+// expression and condition position.
+func enumerateFollowUnexported(p *packages.Package, fd *ast.FuncDecl) []*dtPath {
+	d := newDT(p.TypesInfo)
+	d.callInline = map[*types.Func]*ast.FuncDecl{}
+	for fn, g := range pkgUnexported(p) {
+		if g != fd {
+			d.callInline[fn] = g
+		}
+	}
+	d.hoistCalls = true
+	d.paths = nil
+	d.stmts(seedEnv(d, fd), fd.Body.List, func(q *dtPath) { d.finish(q, "end") })
+	return d.paths
 }
